@@ -96,7 +96,7 @@ struct Inst {
     bool batch_changed = false;   // settings changed since the accumulation started
     bool batch_ever = false;      // batching was configured at some point of this registration (events may sit accumulated)
     bool tmr_maybe_retired(const TmrSrc &t) const { return t.oneshot && (t.prio == PRIO_LOW || (t.prio == PRIO_NORM && batch_ever)); } // expiry read by the library, event still accumulated
-    double batch_timer_set_at = 0;
+    double batch_timer_set_at = 0; long batch_timer_flushes = 0; // timer-caused invocations since the timeout was (re)configured
     int expect_start = 0;         // 1: the next observation must be this module's start callback
     int expect_stop = 0;          // 1: stop callback allowed next, 2: required next
     std::vector<std::function<void()>> after_stop; // model steps that follow the (possible) stop callback
